@@ -172,7 +172,8 @@ class TranslateNode(Node, TranslatableTag):
         Uses the current render context and/or the translation block scope.
         """
         message_context = block_scope.pop(self.message_context_var, None)
-        if message_context:
+        # An empty string is a message context too. That's what is extracted.
+        if message_context or isinstance(message_context, str):
             if isinstance(message_context, str):
                 return message_context  # Just in case we get a Markupsafe object.
             try:
@@ -190,7 +191,7 @@ class TranslateNode(Node, TranslatableTag):
     ) -> str:
         """Get translated text from the given translations object."""
         if self.plural_block and count is not None:
-            if message_context:
+            if message_context is not None:
                 return translations.npgettext(
                     message_context,
                     self.singular_block.text,
@@ -204,7 +205,7 @@ class TranslateNode(Node, TranslatableTag):
                 count,
             )
 
-        if message_context:
+        if message_context is not None:
             return translations.pgettext(message_context, self.singular_block.text)
         return translations.gettext(self.singular_block.text)
 
